@@ -97,6 +97,7 @@ def run(chk):
     cs = CaseSet("c17")
     files = []
     for fi in range(25 if quick else 300):
+        rng.seed("%d/c17-1/%d" % (chk.seed, fi))      # every world has its own stream: families do not disturb each other
         wj, sph = any_world(rng)
         for f in wj["features"]:        # grains need models with matching compositions to be interesting
             pass
